@@ -61,6 +61,8 @@ pub static mut NKIDS: usize = 0;
 /// What the child of the k-th fork reports on its launch-status pipe:
 /// 0 = exec succeeded (EOF), otherwise errno sent as 4 bytes.
 pub static mut KID_LAUNCH_ERRNO: [c_int; NKID] = [0; NKID];
+/// true wait-status word of the k-th forked child
+pub static mut KID_STATUS: [c_int; NKID] = [0; NKID];
 
 /// World behaviour switches (set by harnesses).
 pub static mut KIDS_MAY_EXIT: bool = false; // running children may terminate at any syscall
@@ -81,6 +83,7 @@ pub unsafe fn reset() {
     KIDS = [NOKID; NKID];
     NKIDS = 0;
     KID_LAUNCH_ERRNO = [0; NKID];
+    KID_STATUS = [0; NKID];
     KIDS_MAY_EXIT = false;
     FOREIGN_REAPER = false;
     WAITPID_CALLS = 0;
@@ -166,7 +169,10 @@ pub unsafe extern "C" fn fork() -> pid_t {
     }
     vmodel!(NKIDS < NKID, "MODEL/fork: child table exhausted (raise NKID)");
     let pid = 100 + NKIDS as pid_t;
-    let status: c_int = kani::any();
+    // the true wait-status word is chosen by the harness (default: exit(0));
+    // a symbolic word makes ExitStatus' discriminant -- and through the niche
+    // ChildState's -- symbolic, and symex then cannot prune the wait loop
+    let status: c_int = KID_STATUS[NKIDS];
     KIDS[NKIDS] = Kid {
         pid,
         st: KidSt::Running,
@@ -421,7 +427,7 @@ pub unsafe fn exec_time_checks() {
         vcheck!(C13, FDT[2].obj == EXPECT_FD[2], "C13/stage-stderr: stage's fd 2 is not the expected object at exec");
     }
     // ---- C08: nothing but 0,1,2 of library-created pipes survives exec
-    if focus(P::C08) || focus(P::C13) {
+    {
         let mut i = 3;
         while i < NFD {
             let e = FDT[i];
